@@ -978,3 +978,10 @@ func Analyse(s *gen.Script, in Inputs) Static {
 	}
 	return out
 }
+
+// EvalIn evaluates an expression in a given variable environment.
+func EvalIn(env map[string]Val, e *gen.Expr) (Val, bool) {
+	st := &state{env: env, vis: Sheet{}}
+	v, err := st.eval(e)
+	return v, err == nil
+}
